@@ -310,4 +310,555 @@ theorem mem_faceAdjacency (fs : List Face) (f g : Nat) (e : Edge) :
     simp only [Option.some.injEq, Prod.mk.injEq, and_true]
     omega
 
+/-! ### watertight / winding / adjacency rows -/
+
+theorem edgesSorted_length (fs : List Face) : (edgesSorted fs).length = (edges fs).length := by
+  simp [edgesSorted]
+
+theorem getD_of_getElem? {β : Type} {l : List β} {i : Nat} {x d : β} (h : l[i]? = some x) :
+    l.getD i d = x := by
+  rw [List.getD_eq_getElem?_getD, h]; rfl
+
+theorem isWatertight_iff (fs : List Face) :
+    isWatertight fs = true ↔ ∀ e ∈ edgesSorted fs, (edgesSorted fs).count e = 2 := by
+  have h := edgeGroups_isGrouping fs
+  have hp := pairs_cover_iff _ h.ne_nil
+  unfold isWatertight
+  rw [beq_iff_eq, pairGroups_eq, ← edgesSorted_length, ← List.length_range (n := (edgesSorted fs).length),
+    ← h.perm.length_eq, hp.1]
+  constructor
+  · intro hall e he
+    obtain ⟨i, hi, rfl⟩ := List.mem_iff_getElem.mp he
+    obtain ⟨g, hg, hig⟩ := h.covers hi
+    rw [← h.length_eq_count hg hig (by simp [hi])]
+    exact hall g hg
+  · intro hall g hg
+    have hne := h.ne_nil g hg
+    have hi := headD_mem hne
+    have hlt := h.mem_lt hg hi
+    rw [h.length_eq_count hg hi (x := (edgesSorted fs)[g.headD 0]) (by simp)]
+    exact hall _ (List.getElem_mem hlt)
+
+theorem isWindingConsistent_iff (fs : List Face) :
+    isWindingConsistent fs = true ↔
+      ∀ i j, i < j → j < (edges fs).length →
+        (edgesSorted fs)[i]? = (edgesSorted fs)[j]? →
+        (edgesSorted fs).count ((edgesSorted fs).getD i (0, 0)) = 2 →
+        ((edges fs).getD i (0, 0)).2 = ((edges fs).getD j (0, 0)).1 := by
+  unfold isWindingConsistent
+  rw [List.all_eq_true]
+  constructor
+  · intro hall i j hij hj hs hc
+    have := hall [i, j] ((mem_pairGroups fs _).mpr ⟨i, j, rfl, hij, by rw [edgesSorted_length]; exact hj, hs, hc⟩)
+    simpa using this
+  · intro hall g hg
+    obtain ⟨i, j, rfl, hij, hj, hs, hc⟩ := (mem_pairGroups fs g).mp hg
+    simpa using hall i j hij (by rw [← edgesSorted_length]; exact hj) hs hc
+
+theorem faceAdjacency_nodup (fs : List Face) : (faceAdjacency fs).Nodup := by
+  have h := edgeGroups_isGrouping fs
+  have hd : (pairGroups fs).Pairwise
+      (fun g g' => ∀ i ∈ g, ∀ j ∈ g', (edgesSorted fs)[i]? ≠ (edgesSorted fs)[j]?) := by
+    rw [pairGroups_eq]; exact h.distinct.filter _
+  unfold faceAdjacency
+  refine List.Pairwise.filterMap _ ?_ (List.Pairwise.and_mem.mp hd)
+  rintro g g' ⟨hg, hg', hne⟩ b hb b' hb' ebb
+  obtain ⟨i, j, rfl, hij, hj, _, _⟩ := (mem_pairGroups fs g).mp hg
+  obtain ⟨i', j', rfl, hij', hj', _, _⟩ := (mem_pairGroups fs g').mp hg'
+  simp only at hb hb'
+  split at hb
+  · split at hb'
+    · simp only [Option.some.injEq] at hb hb'
+      subst hb; subst hb'
+      simp only [Prod.mk.injEq] at ebb
+      have hi : i < (edgesSorted fs).length := by omega
+      have hi' : i' < (edgesSorted fs).length := by omega
+      apply hne i (by simp) i' (by simp)
+      have e := ebb.2
+      rw [getD_of_getElem? (List.getElem?_eq_getElem hi), getD_of_getElem? (List.getElem?_eq_getElem hi')] at e
+      rw [List.getElem?_eq_getElem hi, List.getElem?_eq_getElem hi', e]
+    · simp at hb'
+  · simp at hb
+
+/-! ### unique edges -/
+
+theorem hashable_edgeRows_length (fs : List Face) :
+    (hashableRows 2 (edgeRows fs)).length = (edgesSorted fs).length := by
+  have h := (edgeGroups_isGrouping fs).perm.length_eq
+  have h' := (groupsOf_isGrouping lexLe_isOrder (hashableRows 2 (edgeRows fs))).perm.length_eq
+  rw [h, List.length_range, List.length_range] at h'
+  exact h'.symm
+
+theorem uniqueRows_edgeRows (fs : List Face) :
+    uniqueRows 2 (edgeRows fs) false =
+      uniqueOfGroups (edgesSorted fs).length (groupsOf lexLe (hashableRows 2 (edgeRows fs))) := by
+  rw [← hashable_edgeRows_length]; rfl
+
+theorem edgesUnique_eq (fs : List Face) :
+    edgesUnique fs = (uniqueOfGroups (edgesSorted fs).length
+      (groupsOf lexLe (hashableRows 2 (edgeRows fs)))).1.map (fun i => (edgesSorted fs).getD i (0, 0)) := by
+  unfold edgesUnique; rw [uniqueRows_edgeRows]
+
+theorem mem_uniqueOfGroups_lt {α : Type} [DecidableEq α] {vs : List α} {gs : List (List Nat)}
+    (h : IsGrouping vs gs) {u : Nat} (hu : u ∈ (uniqueOfGroups vs.length gs).1) : u < vs.length := by
+  simp only [uniqueOfGroups] at hu
+  obtain ⟨g, hg, rfl⟩ := List.mem_map.mp hu
+  exact h.mem_lt hg (headD_mem (h.ne_nil g hg))
+
+theorem edgesUnique_nodup (fs : List Face) : (edgesUnique fs).Nodup := by
+  have h := edgeGroups_isGrouping fs
+  rw [edgesUnique_eq, List.Nodup, List.pairwise_map]
+  refine List.Pairwise.imp_of_mem ?_ h.unique_distinct
+  intro u u' hu hu' hne e
+  have hl := mem_uniqueOfGroups_lt h hu
+  have hl' := mem_uniqueOfGroups_lt h hu'
+  apply hne
+  rw [getD_of_getElem? (List.getElem?_eq_getElem hl), getD_of_getElem? (List.getElem?_eq_getElem hl')] at e
+  rw [List.getElem?_eq_getElem hl, List.getElem?_eq_getElem hl', e]
+
+theorem mem_edgesUnique (fs : List Face) (e : Edge) : e ∈ edgesUnique fs ↔ e ∈ edgesSorted fs := by
+  have h := edgeGroups_isGrouping fs
+  rw [edgesUnique_eq, List.mem_map]
+  constructor
+  · rintro ⟨u, hu, rfl⟩
+    have hl := mem_uniqueOfGroups_lt h hu
+    rw [getD_of_getElem? (List.getElem?_eq_getElem hl)]
+    exact List.getElem_mem hl
+  · intro he
+    obtain ⟨i, hi, rfl⟩ := List.mem_iff_getElem.mp he
+    obtain ⟨k, u, _, h2, h3⟩ := h.unique_reconstruct hi
+    refine ⟨u, List.mem_of_getElem? h2, ?_⟩
+    rw [List.getElem?_eq_getElem hi] at h3
+    exact getD_of_getElem? h3
+
+theorem edgesUnique_inverse (fs : List Face) (i : Nat) (hi : i < (edgesSorted fs).length) :
+    ∃ k, (edgesUniqueInverse fs)[i]? = some k ∧ (edgesUnique fs)[k]? = (edgesSorted fs)[i]? := by
+  have h := edgeGroups_isGrouping fs
+  obtain ⟨k, u, h1, h2, h3⟩ := h.unique_reconstruct hi
+  refine ⟨k, ?_, ?_⟩
+  · unfold edgesUniqueInverse; rw [uniqueRows_edgeRows]; exact h1
+  · rw [edgesUnique_eq, List.getElem?_map, h2, Option.map_some]
+    rw [List.getElem?_eq_getElem hi] at h3 ⊢
+    rw [getD_of_getElem? h3]
+
+/-! ### Euler number -/
+
+theorem mem_corners (fs : List Face) (v : Nat) :
+    v ∈ corners fs ↔ ∃ f ∈ fs, f.1 = v ∨ f.2.1 = v ∨ f.2.2 = v := by
+  simp only [corners, List.mem_flatMap, List.mem_cons, List.not_mem_nil, or_false]
+  constructor
+  · rintro ⟨f, hf, h⟩; exact ⟨f, hf, by rcases h with h | h | h <;> simp [h]⟩
+  · rintro ⟨f, hf, h⟩; exact ⟨f, hf, by rcases h with h | h | h <;> simp [h]⟩
+
+theorem referenced_count (fs : List Face) (nV : Nat) :
+    (referenced fs nV).count true = ((List.range nV).filter (fun v => v ∈ corners fs)).length := by
+  unfold referenced
+  rw [List.count_eq_countP, List.countP_map, List.countP_eq_length_filter]
+  congr 1
+  apply List.filter_congr
+  intro v _
+  simp only [Function.comp, beq_true]
+  rw [Bool.eq_iff_iff]
+  simp only [List.any_eq_true, Bool.or_eq_true, beq_iff_eq, decide_eq_true_eq, mem_corners, or_assoc]
+
+theorem eulerNumber_eq (fs : List Face) (nV : Nat) :
+    eulerNumber fs nV =
+      (((List.range nV).filter (fun v => v ∈ corners fs)).length : Int)
+        - (((edgesSorted fs).eraseDups).length : Int) + (fs.length : Int) := by
+  unfold eulerNumber
+  rw [referenced_count, length_eraseDups_eq (edgesUnique_nodup fs) (mem_edgesUnique fs)]
+
+/-! ### vertex degree / vertex faces -/
+
+theorem corners_cons (f : Face) (fs : List Face) :
+    corners (f :: fs) = f.1 :: f.2.1 :: f.2.2 :: corners fs := by simp [corners]
+
+theorem cornerFaces_count (v : Nat) (d : Face) (hd : d.1 ≠ v ∧ d.2.1 ≠ v ∧ d.2.2 ≠ v) (f : Nat) :
+    ∀ (fs : List Face) (m : Nat),
+    ((((corners fs).zipIdx (3 * m)).filter (fun p => p.1 == v)).map (fun p => p.2 / 3)).count f =
+      if f < m then 0 else [(fs.getD (f - m) d).1, (fs.getD (f - m) d).2.1, (fs.getD (f - m) d).2.2].count v
+  | [], m => by
+    simp [corners, hd.1, hd.2.1, hd.2.2]
+  | face :: t, m => by
+    have ih := cornerFaces_count v d hd f t (m + 1)
+    have e3 : 3 * m + 1 + 1 + 1 = 3 * (m + 1) := by omega
+    rw [corners_cons]
+    simp only [List.zipIdx_cons, e3]
+    rw [List.count_eq_countP, List.countP_map, List.countP_filter] at ih ⊢
+    simp only [List.countP_cons, Function.comp] at ih ⊢
+    rw [ih]
+    have d0 : (3 * m) / 3 = m := by omega
+    have d1 : (3 * m + 1) / 3 = m := by omega
+    have d2 : (3 * m + 1 + 1) / 3 = m := by omega
+    rw [d0, d1, d2]
+    rcases Nat.lt_trichotomy f m with h | h | h
+    · have h1 : f < m + 1 := by omega
+      have h2 : ¬ m = f := by omega
+      simp [h, h1, h2]
+    · subst h
+      simp [List.count_cons]
+    · have h1 : ¬ f < m + 1 := by omega
+      have h2 : ¬ f < m := by omega
+      have h3 : ¬ m = f := by omega
+      have h4 : f - m = (f - (m + 1)) + 1 := by omega
+      simp [h1, h2, h3, h4]
+
+theorem vertexDegree_getElem? (fs : List Face) (nV v : Nat) (hv : v < nV) :
+    (vertexDegree fs nV)[v]? = some ((corners fs).count v) := by
+  simp [vertexDegree, hv]
+
+theorem vertexFaces_spec (fs : List Face) (nV v : Nat) (hv : v < nV) :
+    ∃ l, (vertexFaces fs nV)[v]? = some l ∧ l.length = (corners fs).count v ∧
+      ∀ f, l.count f = ([(fs.getD f (nV, nV, nV)).1, (fs.getD f (nV, nV, nV)).2.1,
+                         (fs.getD f (nV, nV, nV)).2.2]).count v := by
+  refine ⟨(((corners fs).zipIdx.filter (fun p => p.1 == v)).map (fun p => p.2 / 3)),
+    by simp only [vertexFaces, List.getElem?_map, List.getElem?_range hv, Option.map_some], ?_, ?_⟩
+  · rw [List.length_map, ← List.countP_eq_length_filter, List.count_eq_countP]
+    have : (corners fs) = ((corners fs).zipIdx).map (·.1) := by rw [List.zipIdx_map_fst]
+    conv => rhs; rw [this, List.countP_map]
+    rfl
+  · intro f
+    have := cornerFaces_count v (nV, nV, nV) (by simp; omega) f fs 0
+    simpa using this
+
+/-! ### vertex neighbours -/
+
+theorem edgesSorted_le (fs : List Face) (e : Edge) (he : e ∈ edgesSorted fs) : e.1 ≤ e.2 := by
+  simp only [edgesSorted, List.mem_map] at he
+  obtain ⟨e', _, rfl⟩ := he
+  simp only [sortEdge]; omega
+
+theorem vertexNeighbors_spec (fs : List Face) (nV v w : Nat) (hv : v < nV) :
+    ∃ l, (vertexNeighbors fs nV)[v]? = some l ∧ l.Nodup ∧
+      (w ∈ l ↔ sortEdge (v, w) ∈ edgesSorted fs) := by
+  refine ⟨((((edgesUnique fs).filterMap (fun e =>
+        if e.1 = v then some e.2 else if e.2 = v then some e.1 else none)).mergeSort
+      (fun a b => decide (a ≤ b))).eraseDups),
+    by simp only [vertexNeighbors, List.getElem?_map, List.getElem?_range hv, Option.map_some],
+    eraseDups_nodup _, ?_⟩
+  rw [List.mem_eraseDups, List.mem_mergeSort, List.mem_filterMap]
+  constructor
+  · rintro ⟨e, he, hm⟩
+    rw [mem_edgesUnique] at he
+    have hle := edgesSorted_le fs e he
+    obtain ⟨e1, e2⟩ := e
+    simp only at hm hle
+    split at hm
+    · rename_i h1
+      simp only [Option.some.injEq] at hm
+      subst h1; subst hm
+      have : sortEdge (e1, e2) = (e1, e2) := by simp only [sortEdge, Prod.mk.injEq]; omega
+      rw [this]; exact he
+    · split at hm
+      · rename_i h1 h2
+        simp only [Option.some.injEq] at hm
+        subst h2; subst hm
+        have : sortEdge (e2, e1) = (e1, e2) := by simp only [sortEdge, Prod.mk.injEq]; omega
+        rw [this]; exact he
+      · simp at hm
+  · intro he
+    refine ⟨sortEdge (v, w), (mem_edgesUnique fs _).mpr he, ?_⟩
+    by_cases h : v ≤ w
+    · have : sortEdge (v, w) = (v, w) := by simp only [sortEdge, Prod.mk.injEq]; omega
+      rw [this]; simp
+    · have : sortEdge (v, w) = (w, v) := by simp only [sortEdge, Prod.mk.injEq]; omega
+      have hne : ¬ w = v := by omega
+      rw [this]; simp [hne]
+
+/-! ### connected components by label relaxation -/
+
+/-- connectivity of nodes `< n` through the (undirected) edge list (same as `C05.Conn`) -/
+inductive Reach (n : Nat) (es : List (Nat × Nat)) : Nat → Nat → Prop where
+  | refl (a : Nat) : Reach n es a a
+  | step {a b c : Nat} : Reach n es a b →
+      ((b, c) ∈ es ∨ (c, b) ∈ es) → b < n → c < n → Reach n es a c
+
+variable {n : Nat} {es : List (Nat × Nat)}
+
+theorem Reach.head {a b c : Nat} (he : (a, b) ∈ es ∨ (b, a) ∈ es) (ha : a < n) (hb : b < n)
+    (h : Reach n es b c) : Reach n es a c := by
+  induction h with
+  | refl => exact .step (.refl a) he ha hb
+  | step _ he' hb' hc' ih => exact .step ih he' hb' hc'
+
+theorem Reach.symm {a b : Nat} (h : Reach n es a b) : Reach n es b a := by
+  induction h with
+  | refl => exact .refl _
+  | step _ he hb hc ih => exact Reach.head he.symm hc hb ih
+
+theorem Reach.trans {a b c : Nat} (h1 : Reach n es a b) (h2 : Reach n es b c) : Reach n es a c := by
+  induction h2 with
+  | refl => exact h1
+  | step _ he hb hc ih => exact .step ih he hb hc
+
+/-- a non-empty predicate on `Nat` has a least element -/
+theorem exists_least (P : Nat → Prop) : ∀ k, P k → ∃ m, P m ∧ ∀ x, P x → m ≤ x := by
+  intro k
+  induction k using Nat.strongRecOn with
+  | _ k ih =>
+    intro hk
+    by_cases h : ∃ x, x < k ∧ P x
+    · obtain ⟨x, hx, hpx⟩ := h; exact ih x hx hpx
+    · refine ⟨k, hk, fun x hx => ?_⟩
+      rcases Nat.lt_or_ge x k with h' | h'
+      · exact absurd ⟨x, h', hx⟩ h
+      · exact h'
+
+def relaxStep (l : List Nat) (e : Nat × Nat) : List Nat :=
+  if e.1 < l.length ∧ e.2 < l.length then
+    let m := min (l.getD e.1 0) (l.getD e.2 0)
+    (l.set e.1 m).set e.2 m
+  else l
+
+theorem relax_eq (es : List (Nat × Nat)) (lab : List Nat) : relax es lab = es.foldl relaxStep lab := rfl
+
+theorem relaxStep_length (l : List Nat) (e : Nat × Nat) : (relaxStep l e).length = l.length := by
+  unfold relaxStep; split <;> simp
+
+theorem relaxStep_getD (l : List Nat) (e : Nat × Nat) (v : Nat) :
+    (relaxStep l e).getD v 0 =
+      if e.1 < l.length ∧ e.2 < l.length ∧ (v = e.1 ∨ v = e.2) then min (l.getD e.1 0) (l.getD e.2 0)
+      else l.getD v 0 := by
+  unfold relaxStep
+  by_cases h : e.1 < l.length ∧ e.2 < l.length
+  · rw [if_pos h]
+    simp only [List.getD_eq_getElem?_getD, List.getElem?_set, List.length_set]
+    by_cases h2 : e.2 = v
+    · subst h2; simp [h.1, h.2]
+    · by_cases h1 : e.1 = v
+      · subst h1; simp [h.1, h.2, h2]
+      · have : ¬ (v = e.1 ∨ v = e.2) := by omega
+        simp [h1, h2, this]
+  · rw [if_neg h, if_neg (by intro h'; exact h ⟨h'.1, h'.2.1⟩)]
+
+
+/-- invariant of the label vector: each label is a node of the same component, not above the node -/
+structure LabInv (n : Nat) (es : List (Nat × Nat)) (l : List Nat) : Prop where
+  len : l.length = n
+  le_self : ∀ v, v < n → l.getD v 0 ≤ v
+  reach : ∀ v, v < n → Reach n es v (l.getD v 0)
+
+theorem relaxStep_le (l : List Nat) (e : Nat × Nat) (v : Nat) :
+    (relaxStep l e).getD v 0 ≤ l.getD v 0 := by
+  rw [relaxStep_getD]
+  split
+  · rename_i h
+    rcases h.2.2 with rfl | rfl
+    · exact Nat.min_le_left _ _
+    · exact Nat.min_le_right _ _
+  · exact Nat.le_refl _
+
+theorem relaxStep_inv {l : List Nat} {e : Nat × Nat} (he : e ∈ es) (h : LabInv n es l) :
+    LabInv n es (relaxStep l e) := by
+  refine ⟨by rw [relaxStep_length, h.len], ?_, ?_⟩
+  · intro v hv; exact Nat.le_trans (relaxStep_le l e v) (h.le_self v hv)
+  · intro v hv
+    rw [relaxStep_getD]
+    split
+    · rename_i hc
+      rw [h.len] at hc
+      have hedge : Reach n es e.1 e.2 := .step (.refl _) (Or.inl he) hc.1 hc.2.1
+      rcases Nat.le_total (l.getD e.1 0) (l.getD e.2 0) with hle | hle
+      · rw [Nat.min_eq_left hle]
+        rcases hc.2.2 with rfl | rfl
+        · exact h.reach _ hc.1
+        · exact hedge.symm.trans (h.reach _ hc.1)
+      · rw [Nat.min_eq_right hle]
+        rcases hc.2.2 with rfl | rfl
+        · exact hedge.trans (h.reach _ hc.2.1)
+        · exact h.reach _ hc.2.1
+    · exact h.reach v hv
+
+/-- one sweep: invariant kept, labels only decrease, and across every edge the label of one end
+    drops to at most the old label of the other end -/
+theorem sweep_spec : ∀ (es' : List (Nat × Nat)), (∀ e ∈ es', e ∈ es) → ∀ l, LabInv n es l →
+    LabInv n es (es'.foldl relaxStep l) ∧
+    (∀ v, (es'.foldl relaxStep l).getD v 0 ≤ l.getD v 0) ∧
+    (∀ b c, ((b, c) ∈ es' ∨ (c, b) ∈ es') → b < n → c < n →
+      (es'.foldl relaxStep l).getD c 0 ≤ l.getD b 0)
+  | [], _, l, h => ⟨h, fun _ => Nat.le_refl _, by simp⟩
+  | e :: t, hsub, l, h => by
+    have hinv := relaxStep_inv (hsub e (by simp)) h
+    obtain ⟨i1, i2, i3⟩ := sweep_spec t (fun x hx => hsub x (List.mem_cons_of_mem _ hx)) _ hinv
+    simp only [List.foldl_cons]
+    refine ⟨i1, fun v => Nat.le_trans (i2 v) (relaxStep_le l e v), ?_⟩
+    intro b c hbc hb hc
+    have hstep : ∀ x y, e = (x, y) → x < n → y < n →
+        (relaxStep l e).getD x 0 ≤ l.getD y 0 ∧ (relaxStep l e).getD y 0 ≤ l.getD x 0 := by
+      intro x y hxy hx hy
+      subst hxy
+      rw [relaxStep_getD, relaxStep_getD, h.len]
+      simp only [hx, hy, true_and, true_or, or_true, if_true]
+      exact ⟨Nat.min_le_right _ _, Nat.min_le_left _ _⟩
+    simp only [List.mem_cons] at hbc
+    rcases hbc with (hbc | hbc) | (hbc | hbc)
+    · exact Nat.le_trans (i2 c) (hstep b c hbc.symm hb hc).2
+    · exact Nat.le_trans (i3 b c (Or.inl hbc) hb hc) (relaxStep_le l e b)
+    · exact Nat.le_trans (i2 c) (hstep c b hbc.symm hc hb).1
+    · exact Nat.le_trans (i3 b c (Or.inr hbc) hb hc) (relaxStep_le l e b)
+
+
+/-- the label of `v` is the least node of its component -/
+def Correct (n : Nat) (es : List (Nat × Nat)) (l : List Nat) (v : Nat) : Prop :=
+  ∀ a, Reach n es a v → l.getD v 0 ≤ a
+
+theorem Correct.mono {l l' : List Nat} {v : Nat} (h : Correct n es l v)
+    (hle : l'.getD v 0 ≤ l.getD v 0) : Correct n es l' v :=
+  fun a ha => Nat.le_trans hle (h a ha)
+
+/-- if some node is not yet correct, some edge leads from a correct node to an incorrect one -/
+theorem exists_frontier {l : List Nat} (h : LabInv n es l) {v : Nat} (hv : v < n)
+    (hnc : ¬ Correct n es l v) :
+    ∃ b c, ((b, c) ∈ es ∨ (c, b) ∈ es) ∧ b < n ∧ c < n ∧ Correct n es l b ∧ ¬ Correct n es l c := by
+  obtain ⟨m, hm, hleast⟩ := exists_least (fun x => Reach n es x v) v (.refl v)
+  have hmv : m ≤ v := hleast v (.refl v)
+  have hcm : Correct n es l m := fun a ha =>
+    Nat.le_trans (h.le_self m (by omega)) (hleast a (ha.trans hm))
+  have aux : ∀ x, Reach n es m x → ¬ Correct n es l x →
+      ∃ b c, ((b, c) ∈ es ∨ (c, b) ∈ es) ∧ b < n ∧ c < n ∧ Correct n es l b ∧ ¬ Correct n es l c := by
+    intro x hx
+    induction hx with
+    | refl => intro hn; exact absurd hcm hn
+    | @step b c _ he hb hc ih =>
+      intro hn
+      by_cases hcb : Correct n es l b
+      · exact ⟨b, c, he, hb, hc, hcb, hn⟩
+      · exact ih hcb
+  exact aux v hm hnc
+
+/-- a sweep makes the far end of every edge out of a correct node correct -/
+theorem sweep_correct {l : List Nat} (h : LabInv n es l) {b c : Nat}
+    (he : (b, c) ∈ es ∨ (c, b) ∈ es) (hb : b < n) (hc : c < n) (hcb : Correct n es l b) :
+    Correct n es (relax es l) c := by
+  intro a ha
+  have hab : Reach n es a b := .step ha he.symm hc hb
+  exact Nat.le_trans ((sweep_spec es (fun _ h => h) l h).2.2 b c he hb hc) (hcb a hab)
+
+theorem countP_lt_countP {β : Type} {p q : β → Bool} : ∀ (xs : List β), (∀ x ∈ xs, p x = true → q x = true) →
+    (∃ x ∈ xs, q x = true ∧ ¬ p x = true) → xs.countP p < xs.countP q
+  | [], _, h => by simp at h
+  | x :: t, hpq, hex => by
+    have hmono := List.countP_mono_left (l := t) (fun y hy => hpq y (List.mem_cons_of_mem _ hy))
+    simp only [List.countP_cons]
+    obtain ⟨y, hy, hqy, hpy⟩ := hex
+    rcases List.mem_cons.mp hy with rfl | hy'
+    · have hpy' : p y = false := by simpa using hpy
+      simp only [hqy, hpy']; simp only [if_true, Bool.false_eq_true, if_false]; omega
+    · have ih := countP_lt_countP t (fun y hy => hpq y (List.mem_cons_of_mem _ hy)) ⟨y, hy', hqy, hpy⟩
+      have := hpq x (by simp)
+      cases hpx : p x
+      · cases hqx : q x <;> simp <;> omega
+      · rw [this hpx]; simp; omega
+
+open Classical in
+/-- number of correct nodes -/
+noncomputable def correctCount (n : Nat) (es : List (Nat × Nat)) (l : List Nat) : Nat :=
+  (List.range n).countP (fun v => decide (Correct n es l v))
+
+theorem correctCount_le (l : List Nat) : correctCount n es l ≤ n := by
+  have := List.countP_le_length (p := fun v => @decide (Correct n es l v) (Classical.propDecidable _))
+    (l := List.range n)
+  simpa [correctCount] using this
+
+theorem all_correct_of_count {l : List Nat} (h : n ≤ correctCount n es l) :
+    ∀ v, v < n → Correct n es l v := by
+  intro v hv
+  have h1 : correctCount n es l = (List.range n).length := by
+    have := correctCount_le (n := n) (es := es) l; rw [List.length_range]; omega
+  unfold correctCount at h1
+  have := List.countP_eq_length.mp h1 v (List.mem_range.mpr hv)
+  simpa using this
+
+/-- one sweep either finds everything correct already or makes one more node correct -/
+theorem sweep_progress {l : List Nat} (h : LabInv n es l) :
+    (∀ v, v < n → Correct n es l v) ∨ correctCount n es l + 1 ≤ correctCount n es (relax es l) := by
+  by_cases hall : ∀ v, v < n → Correct n es l v
+  · exact Or.inl hall
+  · right
+    have hex : ∃ v, v < n ∧ ¬ Correct n es l v := by
+      apply Classical.byContradiction
+      intro hne
+      apply hall
+      intro v hv
+      apply Classical.byContradiction
+      intro hc
+      exact hne ⟨v, hv, hc⟩
+    obtain ⟨v, hv, hnc⟩ := hex
+    obtain ⟨b, c, he, hb, hc, hcb, hncc⟩ := exists_frontier h hv hnc
+    have hs := sweep_spec es (fun _ h => h) l h
+    unfold correctCount
+    apply countP_lt_countP
+    · intro x _ hx
+      simp only [decide_eq_true_eq] at hx ⊢
+      exact hx.mono (hs.2.1 x)
+    · exact ⟨c, List.mem_range.mpr hc, by simpa using sweep_correct h he hb hc hcb, by simpa using hncc⟩
+
+theorem iterate_spec : ∀ (xs : List Nat) (l : List Nat), LabInv n es l →
+    LabInv n es (xs.foldl (fun l _ => relax es l) l) ∧
+    (∀ v, (xs.foldl (fun l _ => relax es l) l).getD v 0 ≤ l.getD v 0) ∧
+    ((∀ v, v < n → Correct n es (xs.foldl (fun l _ => relax es l) l) v) ∨
+      correctCount n es l + xs.length ≤ correctCount n es (xs.foldl (fun l _ => relax es l) l))
+  | [], l, h => ⟨h, fun _ => Nat.le_refl _, Or.inr (Nat.le_refl _)⟩
+  | _ :: t, l, h => by
+    have hs := sweep_spec es (fun _ h => h) l h
+    obtain ⟨i1, i2, i3⟩ := iterate_spec t (relax es l) hs.1
+    simp only [List.foldl_cons, List.length_cons]
+    refine ⟨i1, fun v => Nat.le_trans (i2 v) (hs.2.1 v), ?_⟩
+    rcases i3 with i3 | i3
+    · exact Or.inl i3
+    · rcases sweep_progress h with hp | hp
+      · exact Or.inl (fun v hv => (hp v hv).mono (Nat.le_trans (i2 v) (hs.2.1 v)))
+      · right; omega
+
+theorem labInv_range (n : Nat) (es : List (Nat × Nat)) : LabInv n es (List.range n) := by
+  refine ⟨List.length_range, ?_, ?_⟩
+  · intro v hv; simp [List.getD_eq_getElem?_getD, List.getElem?_range hv]
+  · intro v hv
+    have : (List.range n).getD v 0 = v := by simp [List.getD_eq_getElem?_getD, List.getElem?_range hv]
+    rw [this]; exact .refl v
+
+/-- after `n` sweeps two nodes carry the same label iff they are connected -/
+theorem labels_spec (n : Nat) (es : List (Nat × Nat)) :
+    (labels n es).length = n ∧
+    ∀ a b, a < n → b < n → ((labels n es).getD a 0 = (labels n es).getD b 0 ↔ Reach n es a b) := by
+  obtain ⟨hinv, _, hc⟩ := iterate_spec (List.range n) (List.range n) (labInv_range n es)
+  have hcorr : ∀ v, v < n → Correct n es (labels n es) v := by
+    rcases hc with hc | hc
+    · exact hc
+    · rw [List.length_range] at hc
+      exact all_correct_of_count (by unfold labels; omega)
+  have hinv' : LabInv n es (labels n es) := hinv
+  refine ⟨hinv'.len, ?_⟩
+  intro a b ha hb
+  constructor
+  · intro e
+    have h1 := hinv'.reach a ha
+    have h2 := hinv'.reach b hb
+    rw [e] at h1
+    exact h1.trans h2.symm
+  · intro hab
+    have h1 : (labels n es).getD a 0 ≤ (labels n es).getD b 0 :=
+      hcorr a ha _ ((hinv'.reach b hb).symm.trans hab.symm)
+    have h2 : (labels n es).getD b 0 ≤ (labels n es).getD a 0 :=
+      hcorr b hb _ ((hinv'.reach a ha).symm.trans hab)
+    omega
+
+theorem components_spec (n : Nat) (es : List (Nat × Nat)) (a b : Nat) (ha : a < n) (hb : b < n) :
+    ((∃ g ∈ components n es 1, a ∈ g ∧ b ∈ g) ↔ Reach n es a b) ∧
+    (components n es 1).flatten.count a = 1 := by
+  obtain ⟨hlen, hspec⟩ := labels_spec n es
+  have h := groupsOf_isGrouping natLe_isOrder (labels n es)
+  have hc : components n es 1 = groupsOf natLe (labels n es) := by
+    unfold components group
+    rw [List.filter_eq_self]
+    intro g hg
+    have := h.ne_nil g hg
+    cases g with
+    | nil => exact absurd rfl this
+    | cons x t => simp [lenOk]
+  rw [hc]
+  refine ⟨?_, h.count_one (by omega)⟩
+  rw [h.iff_same_group (by omega) (by omega), ← hspec a b ha hb]
+  simp [List.getD_eq_getElem?_getD, hlen, ha, hb]
+
 end TV.Topology
